@@ -866,6 +866,14 @@ func (l *vC01Lab) install(kind, target string) bool {
 				}
 			}
 		}
+	case "bare-nxdomain": // the zone's answers replaced by a name error that brings nothing: no SOA, no denial, no signature
+		f = func(s *vC01LServer, z *vC01LZone, q dns.Question, m *dns.Msg) {
+			if z != tz || q.Qtype == dns.TypeDNSKEY || q.Qtype == dns.TypeDS || q.Qtype == dns.TypeNS || strings.HasPrefix(strings.ToLower(q.Name), "ns.") {
+				return
+			}
+			m.Answer, m.Ns, m.Extra = nil, nil, nil
+			m.Rcode = dns.RcodeNameError
+		}
 	case "ds-sig-alg": // downgrade: the signature over the target's DS (or over its denial) claims an unimplemented algorithm; below the cut data is forged, unsigned
 		f = func(s *vC01LServer, z *vC01LZone, q dns.Question, m *dns.Msg) {
 			if z != tz {
@@ -1175,7 +1183,7 @@ func TestVerifC01Lab(t *testing.T) {
 	tampers := []string{"none", "none", "strip-sigs", "alter-a", "expired", "signer-name", "bitflip", "labels", "forged-untrusted-key", "dnskey-extra-key",
 		"ds-swap", "ds-drop", "nsec-drop", "nxdomain-forged", "inject-foreign", "island-hijack", "no-anchor", "wildcard-replay", "wildcard-replay-decoy", "parent-denial-nxdomain", "parent-denial-nodata",
 		"wildcard-replay-foreign-nsec", "wildcard-replay-parent-nsec", "wildcard-replay-foreign-nsec3", "wildcard-replay-straddling-nsec",
-		"alter-a-sig-alg", "sig-alg", "ds-sig-alg"}
+		"alter-a-sig-alg", "sig-alg", "ds-sig-alg", "bare-nxdomain"}
 	run := func(topo, tam, target string, q tq, origin string) {
 		lab, ok := vC01BuildLab(t, r, topo)
 		if !ok {
